@@ -10,19 +10,37 @@ from ..tlc import MachineryError, read_emitted, run_tlc, workdir
 EXTRA = {"q": 99, "s": 98}
 ALLKEYS = ["p", "q", "r", "s", "zz"]
 
+# gamma side: the model's plain mapping (LayeredMapping.tla: a sequence of <<key, value>> pairs, `Has` = the keys it holds) is
+# realised twice - as a dict, and as a mapping with a `__missing__` hook (collections.defaultdict; any dict subclass defining
+# __missing__ behaves the same).  Such a mapping still *holds* only its own keys, so every expected outcome is unchanged; but
+# indexing it with a key it does not hold answers the hook's value and inserts the key, so a lookup that indexes a layer before
+# asking whether the layer holds the key stops falling through to the lower layers and writes to a supplied layer.
+HOOK_DEFAULT = -7            # no value of the models
+REALISATIONS = ("dict", "defaultdict")
 
-def lm_config(i: int):
+
+def _hook_default():
+    return HOOK_DEFAULT
+
+
+def mk_layer(real: str, d: dict):
+    from collections import defaultdict
+
+    return d if real == "dict" else defaultdict(_hook_default, d)
+
+
+def lm_config(i: int, real: str = "dict"):
     """mirror of MC_LayeredMapping!Configs; returns (mapping, list of supplied plain dicts)"""
     from formulaic.utils.layered_mapping import LayeredMapping as LMp
 
     if i == 1:
-        d = [{"p": 10}, {"q": 21, "p": 20}]
+        d = [mk_layer(real, x) for x in ({"p": 10}, {"q": 21, "p": 20})]
         return LMp(d[0], None, d[1]), d
     if i == 2:
-        d = [{"p": 10}, {"q": 21, "p": 20}, {"r": 30, "q": 31}]
+        d = [mk_layer(real, x) for x in ({"p": 10}, {"q": 21, "p": 20}, {"r": 30, "q": 31})]
         return LMp(LMp(d[0], name="data"), LMp(d[1], name="context"), LMp(d[2], name="transforms")), d
     if i == 3:
-        d = [{"p": 10}, {"r": 6}, {"q": 21}]
+        d = [mk_layer(real, x) for x in ({"p": 10}, {"r": 6}, {"q": 21})]
         inner = LMp(d[0], d[1], name="inner")
         inner["r"] = 5
         return LMp(inner, d[2], name="top"), d + [inner._mutations]
@@ -30,9 +48,13 @@ def lm_config(i: int):
 
 
 def replay_lm(case):
-    lm, supplied = lm_config(case["cfg"])
+    return [b for real in REALISATIONS for b in _replay_lm(case, real)]
+
+
+def _replay_lm(case, real):
+    lm, supplied = lm_config(case["cfg"], real)
     before = copy.deepcopy(supplied)
-    extra = dict(EXTRA)
+    extra = mk_layer(real, dict(EXTRA))
     last = "init"
     bad = []
     for op in case["hist"]:
@@ -82,22 +104,22 @@ def replay_lm(case):
                 bad.append({"why": f"getitem({k}) raised KeyError"})
     if supplied != before or extra != EXTRA:
         bad.append({"why": "a supplied layer was mutated", "observed": supplied, "expected": before})
-    return [{"container": "LayeredMapping", "cfg": case["cfg"], "hist": case["hist"], **b} for b in bad]
+    return [{"container": "LayeredMapping", "layers_as": real, "cfg": case["cfg"], "hist": case["hist"], **b} for b in bad]
 
 
 # ------------------------------------------------------------------ LayeredMapping objects holding each other by reference
-def heap_config(i: int):
+def heap_config(i: int, real: str = "dict"):
     """mirror of MC_LayeredHeap!Configs: the list of objects, index = heap index - 1"""
     from formulaic.utils.layered_mapping import LayeredMapping as LMp
 
     if i == 1:
-        d = {"p": 10, "q": 20}
+        d = mk_layer(real, {"p": 10, "q": 20})
         return [d, LMp(d)]
     if i == 2:
-        d = {"p": 10, "q": 20}
+        d = mk_layer(real, {"p": 10, "q": 20})
         return [d, LMp(d, name="base")]
     if i == 3:
-        d = {"q": 20, "p": 10}
+        d = mk_layer(real, {"q": 20, "p": 10})
         m = LMp(d)
         m["s"] = 5
         return [d, m]
@@ -105,16 +127,20 @@ def heap_config(i: int):
 
 
 def replay_heap(case):
+    return [b for real in REALISATIONS for b in _replay_heap(case, real)]
+
+
+def _replay_heap(case, real):
     """The whole object graph is built by the history; every object (the old ones too) is read only after the last operation,
     so a child that snapshotted its parent, a parent that wrote through to a supplied dict, ... all show up as a stale / foreign read."""
     from formulaic.utils.layered_mapping import LayeredMapping as LMp
 
-    objs = heap_config(case["cfg"])
+    objs = heap_config(case["cfg"], real)      # the plain dicts of the heap in both realisations (see mk_layer)
     last = "init"
     bad = []
     for n, op in enumerate(case["hist"], 1):
         o = objs[op["o"] - 1]
-        extra = {"q": 300 + n, "s": 400 + n}
+        extra = mk_layer(real, {"q": 300 + n, "s": 400 + n})
         # None layers are dropped by __filter_layers wherever they stand: interleaved on every other step
         pad = (None,) if n % 2 else ()
         try:
@@ -169,7 +195,11 @@ def replay_heap(case):
             chk(f"contains({k})", _try_lm(lambda: k in x), k in exp)
             chk(f"getitem({k})", _try_lm(lambda: x[k]), exp.get(k, "KeyError"))
             chk(f"get({k})", _try_lm(lambda: x.get(k, "KeyError")), exp.get(k, "KeyError"))
-    return [{"container": "LayeredMapping", "cfg": case["cfg"], "hist": [_short(h) for h in case["hist"]], **b} for b in bad]
+    # reading is not writing: after all the lookups above (also of keys no layer holds) every plain dict still holds what its owner wrote
+    for i, (x, e) in enumerate(zip(objs, case["objs"]), 1):
+        if e["kind"] == "dict" and isinstance(x, dict) and [[k, v] for k, v in x.items()] != [list(p) for p in e["items"]]:
+            bad.append({"why": "reading the mappings changed a plain dict they were given", "object": i, "observed": [[k, v] for k, v in x.items()], "expected": [list(p) for p in e["items"]]})
+    return [{"container": "LayeredMapping", "layers_as": real, "cfg": case["cfg"], "hist": [_short(h) for h in case["hist"]], **b} for b in bad]
 
 
 def _try_lm(fn):
@@ -259,7 +289,7 @@ def _leg(ctx: Ctx, module: str, fn: str, maxops: int, props: str, what: str, con
     res = pmap("harness.props.c19_hist", fn, cases, chunk=500)
     for c, bad in zip(cases, res):
         ctx.traces += 1
-        ctx.evaluations += 1
+        ctx.evaluations += 1 if fn == "replay_fs" else len(REALISATIONS)      # the mapping histories are executed once per realisation of the layers
         if len(c["hist"]) >= 2:
             ctx.nontrivial.add(jhash([module, c.get("cfg", c.get("start")), c.get("mode"), c["hist"]]))
         for b in bad:
@@ -275,7 +305,7 @@ def _leg(ctx: Ctx, module: str, fn: str, maxops: int, props: str, what: str, con
     sres = pmap("harness.props.c19_hist", fn, uniq, chunk=500)
     for c, bad in zip(uniq, sres):
         ctx.traces += 1
-        ctx.evaluations += 1
+        ctx.evaluations += 1 if fn == "replay_fs" else len(REALISATIONS)      # the mapping histories are executed once per realisation of the layers
         ctx.nontrivial.add(jhash([module, c.get("cfg", c.get("start")), c.get("mode"), c["hist"]]))
         for b in bad:
             ctx.violation({"container": b["container"], "ordering": b.get("ordering"), "start": b.get("start", b.get("cfg")), "hist": b["hist"]}, b, kind="replay")
